@@ -65,6 +65,20 @@ def scan_trusted(gen):
     return sorted(set(items)), bad
 
 
+REPO_TARGET = os.path.join(VERIF, '.cache', 'repo-target')
+
+
+def build_repo(args):
+    """compile /repo's crates (working tree) with Verus's toolchain so that a unit can link the real ide/syntax rlibs"""
+    import subprocess
+    env = dict(os.environ, CARGO_NET_OFFLINE='true')
+    p = subprocess.run(['cargo', '+1.98.1-x86_64-unknown-linux-gnu', 'build', '--offline', '--target-dir', REPO_TARGET] + list(args),
+                       cwd='/repo', capture_output=True, text=True, env=env)
+    if p.returncode != 0:
+        raise splice.ExtractError('the repository does not compile: ' + p.stderr[-800:])
+    return os.path.join(REPO_TARGET, 'debug', 'deps')
+
+
 class UnitRun:
     def __init__(self, name, U, gen, res, canaries):
         self.name = name
@@ -76,6 +90,9 @@ class UnitRun:
 
 def run_unit(name, carve=None, mutate=None, tag='main', verify_fn=None, timeout=1500):
     U = load_unit(name)
+    deps = None
+    if getattr(U, 'repo_build', None):
+        deps = build_repo(U.repo_build)
     sp = splice.Splicer(U, variant_carve=carve, mutate=mutate)
     gen = sp.build()
     gen.unit_name = name
@@ -84,7 +101,7 @@ def run_unit(name, carve=None, mutate=None, tag='main', verify_fn=None, timeout=
     flags = list(getattr(U, 'flags', []))
     if verify_fn:
         flags += ['--verify-function', verify_fn]
-    res = verus.run(gen, path, U.externs, flags, timeout=timeout)
+    res = verus.run(gen, path, U.externs, flags, timeout=timeout, deps=deps)
     return UnitRun(name, U, gen, res, getattr(U, 'canaries', []))
 
 
